@@ -15,6 +15,9 @@ type WorkSpace struct {
 	state   engine.WorkSpaceState
 	using   bool
 	rootDir string
+	// stopEpoch counts the stop/remove/delete requests for this workSpace
+	// (guarded by the keeper's state lock)
+	stopEpoch int
 }
 
 // NewWorkSpace loads MassDB from given rootDir with PubKey&BitLength,
